@@ -148,6 +148,11 @@ func (in *inst) Exec(t int, op vdrv.Op) string {
 		return count(in.win.OnFailure())
 	case "wc":
 		return count(in.win.Count())
+	case "wP":
+		// n events of each kind at once into the current bucket (through the bucket's own adders): windows holding
+		// billions of events without billions of calls; monitor-only scenarios (nomodel)
+		in.win.VerifPreload(op.Arg(0), op.Arg(0))
+		return "u"
 	}
 	panic("unknown op " + op.Name)
 }
@@ -465,6 +470,10 @@ func monitor(s *vdrv.Scenario, h *vdrv.History, fin string, aborted string) stri
 					}
 				case "wc":
 					want = fmt.Sprintf("e%d:%d", w.snap[0], w.snap[1])
+				case "wP":
+					w.cur.s += c.op.Arg(0)
+					w.cur.f += c.op.Arg(0)
+					want = "u"
 				}
 				if c.res != want {
 					return fmt.Sprintf("sliding window, sequential script: op #%d %s returned %s, the reference window gives %s", c.k, c.op, c.res, want)
